@@ -56,6 +56,9 @@ def check(ctx):
             for c in f.own_calls():
                 if isinstance(c.func, ast.Attribute) and c.func.attr in ("__enter__", "__exit__"):
                     ctx.ob("C15.P1", f"{f.short}/explicit-enter-exit", False, loc(f, c), "explicit __enter__/__exit__ call on the observer path", norm(c))
+    # ... and the phases return only after every worker thread has been joined (normal or exceptional exit of the engine): a worker
+    # left running would report 'completed' / 'failed' after the observer's __exit__
+    ctx.run(E.rule_pool_joins, "C15.P1", er)
     # ---------------------------------------------------------------- P2 / P5
     from .evalrules import totals_site
     sites_ = {}
